@@ -1,5 +1,7 @@
 (* Proofs.ExprRefute — what it means for the (faithful) model output to violate property C02 on a
-   concrete statement and initial state, and the concrete witnesses, one per defect class (tag). *)
+   concrete statement and initial state; the witness of the one class the repaired code still has
+   (`**` needs a constant exponent); and the statements that witnessed the 15 repaired classes,
+   now compiled to commands that compute the right value (checked by computation on the model). *)
 From Coq Require Import ZArith String List Bool Lia.
 From JMCV Require Import Base.Int32 Base.Dec MC.Syntax MC.Sem MC.Facts Model.Names Model.VarOp Proofs.VarOp
      Model.Expr Model.ExprSpec Model.ExprFront Model.ExprBack.
@@ -58,87 +60,48 @@ Definition sd : score := ("$d", "__variable__")%string.
 Definition X := SDollar "$x". Definition A := EVar (SDollar "$a"). Definition B := EVar (SDollar "$b").
 Definition C := EVar (SDollar "$c"). Definition D := EVar (SDollar "$d"). Definition XE := EVar (SDollar "$x").
 
-Ltac wrong := eapply V_wrong_value;
-  [ vm_compute; reflexivity | vm_compute; auto 10
-  | intros z Hz; vm_compute in Hz; repeat (destruct Hz as [<-|Hz]; [vm_compute; reflexivity|]); destruct Hz
-  | vm_compute; reflexivity | vm_compute; reflexivity | vm_compute; congruence ].
-
-(* $x := $a + $b * $c * $d   computes (a + b*c) * d *)
-Definition w_parse := mkW X PEmpty (EBin BAdd A (EBin BMul (EBin BMul B C) D)) [(sa, 1); (sb, 1); (sc_, 1); (sd, 2)].
-Lemma refuted_parse : lits_ok (w_e w_parse) = true /\ violates w_parse T_parse_pop_lower.
-Proof. split; [reflexivity|]. wrong. Qed.
-
-(* $x := $b / -$a   computes (b / -1) * a *)
-Definition w_neg := mkW X PEmpty (EBin BDiv B (ENeg A)) [(sa, 2); (sb, 7)].
-Lemma refuted_neg : lits_ok (w_e w_neg) = true /\ violates w_neg T_neg_after_tight.
-Proof. split; [reflexivity|]. wrong. Qed.
-
-(* $x :+= -$a   is rejected: "Unrecognized expression token" *)
-Definition w_iop_minus := mkW X PAdd (ENeg A) [(sa, 2); (sx, 1)].
-Lemma refuted_iop_minus : lits_ok (w_e w_iop_minus) = true /\ violates w_iop_minus T_iop_leading_minus.
-Proof. split; [reflexivity|]. eapply V_rejected; [vm_compute; reflexivity|vm_compute; auto 10|vm_compute; reflexivity]. Qed.
-
-(* $x :+= $a * 2   computes (x + a) * 2 *)
-Definition w_iop := mkW X PAdd (EBin BMul A (EConst 2)) [(sa, 1); (sx, 1)].
-Lemma refuted_iop : lits_ok (w_e w_iop) = true /\ violates w_iop T_iop_inject.
-Proof. split; [reflexivity|]. wrong. Qed.
-
-(* $x := 0 - $a * $b + $x   overwrites $x (the renamed temporary) before reading it *)
-Definition w_reuse := mkW X PEmpty (EBin BAdd (EBin BSub (EConst 0) (EBin BMul A B)) XE) [(sa, 1); (sb, 1); (sx, 5)].
-Lemma refuted_reuse : lits_ok (w_e w_reuse) = true /\ violates w_reuse T_inject_reused_temp.
-Proof. split; [reflexivity|]. wrong. Qed.
-
-(* $x := (1 + 2) - (3 + 4)   is folded to -10 *)
-Definition w_subfold := mkW X PEmpty (EBin BSub (EBin BAdd (EConst 1) (EConst 2)) (EBin BAdd (EConst 3) (EConst 4))) [].
-Lemma refuted_subfold : lits_ok (w_e w_subfold) = true /\ violates w_subfold T_sub_rewrite_fold.
-Proof. split; [reflexivity|]. wrong. Qed.
-
-(* $x := (-3) ** 2   is folded to -9 *)
-Definition w_pow := mkW X PEmpty (EBin BPow (EConst (-3)) (EConst 2)) [].
-Lemma refuted_pow : lits_ok (w_e w_pow) = true /\ violates w_pow T_fold_pow_negbase.
-Proof. split; [reflexivity|]. wrong. Qed.
-
 (* $x := $a ** $b   is rejected *)
 Definition w_pownc := mkW X PEmpty (EBin BPow A B) [(sa, 2); (sb, 3)].
 Lemma refuted_pownc : lits_ok (w_e w_pownc) = true /\ violates w_pownc T_pow_nonconst.
 Proof. split; [reflexivity|]. eapply V_rejected; [vm_compute; reflexivity|vm_compute; auto 10|vm_compute; reflexivity]. Qed.
 
-(* $x := $a - 3 - 2   computes a + 5 *)
+(* ------------------------------------------------------------------ the repaired classes *)
+(* the statement compiles without firing a tag, its commands are accepted and run to completion, and
+   the target holds the demanded value (when there is one: `1 / 0` has none and is rejected with a diagnostic) *)
+Definition holds_b (w : witness) : bool :=
+  match model_run w, expected w with
+  | (Ok (cmds, ints), []), Some v =>
+      forallb wf_cmd (cmds ++ load_ints nm0 ints) &&
+      match exec_list no_ft no_env 1 cmds (w_state w ints) with
+      | Some st' => match sc st' (w_score w) with Some x => x =? v | None => false end
+      | None => false
+      end
+  | (Diag _, []), None => true
+  | _, _ => false
+  end.
+
+Definition w_parse := mkW X PEmpty (EBin BAdd A (EBin BMul (EBin BMul B C) D)) [(sa, 1); (sb, 1); (sc_, 1); (sd, 2)].
+Definition w_neg := mkW X PEmpty (EBin BDiv B (ENeg A)) [(sa, 2); (sb, 7)].
+Definition w_iop_minus := mkW X PAdd (ENeg A) [(sa, 2); (sx, 1)].
+Definition w_iop := mkW X PAdd (EBin BMul A (EConst 2)) [(sa, 1); (sx, 1)].
+Definition w_reuse := mkW X PEmpty (EBin BAdd (EBin BSub (EConst 0) (EBin BMul A B)) XE) [(sa, 1); (sb, 1); (sx, 5)].
+Definition w_subfold := mkW X PEmpty (EBin BSub (EBin BAdd (EConst 1) (EConst 2)) (EBin BAdd (EConst 3) (EConst 4))) [].
+Definition w_pow := mkW X PEmpty (EBin BPow (EConst (-3)) (EConst 2)) [].
 Definition w_minus := mkW X PEmpty (EBin BSub (EBin BSub A (EConst 3)) (EConst 2)) [(sa, 10)].
-Lemma refuted_minus : lits_ok (w_e w_minus) = true /\ violates w_minus T_opt_final_minus.
-Proof. split; [reflexivity|]. wrong. Qed.
-
-(* $x := $a / 3 / -2   computes a / -6 *)
 Definition w_div := mkW X PEmpty (EBin BDiv (EBin BDiv A (EConst 3)) (EConst (-2))) [(sa, 1)].
-Lemma refuted_div : lits_ok (w_e w_div) = true /\ violates w_div T_opt_final_div.
-Proof. split; [reflexivity|]. wrong. Qed.
-
-(* $x := 7 % $a % 3   computes (7 % 3) % a *)
 Definition w_mod := mkW X PEmpty (EBin BMod (EBin BMod (EConst 7) A) (EConst 3)) [(sa, 5)].
-Lemma refuted_mod : lits_ok (w_e w_mod) = true /\ violates w_mod T_opt_final_mod.
-Proof. split; [reflexivity|]. wrong. Qed.
-
-(* $x := ($a - 3 - 2) * $b   computes (a - 1) * b *)
 Definition w_mid := mkW X PEmpty (EBin BMul (EBin BSub (EBin BSub A (EConst 3)) (EConst 2)) B) [(sa, 10); (sb, 1)].
-Lemma refuted_mid : lits_ok (w_e w_mid) = true /\ violates w_mid T_opt_mid_merge.
-Proof. split; [reflexivity|]. wrong. Qed.
-
-(* $x := $a + -2147483648   emits `scoreboard players remove $x __variable__ 2147483648` *)
 Definition w_range := mkW X PEmpty (EBin BAdd A (EConst (-2147483648))) [(sa, 1)].
-Lemma refuted_range : lits_ok (w_e w_range) = true /\ violates w_range T_const_range.
-Proof. split; [reflexivity|]. eapply V_invalid_command; [vm_compute; reflexivity|vm_compute; auto 10|vm_compute; reflexivity|vm_compute; reflexivity]. Qed.
-
-(* $x := 1 / 0   ZeroDivisionError escapes *)
 Definition w_crash := mkW X PEmpty (EBin BDiv (EConst 1) (EConst 0)) [].
-Lemma refuted_crash : lits_ok (w_e w_crash) = true /\ violates w_crash T_crash_fold.
-Proof. split; [reflexivity|]. eapply V_internal_error; [vm_compute; reflexivity|vm_compute; auto 10]. Qed.
-
-(* $x := ($x ** 0) ** 2   emits only `$x = $x`: `t = 1; t *= t` is reordered to `t = t; t *= 1` *)
 Definition w_swap := mkW X PEmpty (EBin BPow (EPar (EBin BPow XE (EConst 0))) (EConst 2)) [(sx, 5)].
-Lemma refuted_swap : lits_ok (w_e w_swap) = true /\ violates w_swap T_opt_swap_self.
-Proof. split; [reflexivity|]. wrong. Qed.
-
-(* $x := ($a * 2) ** 2 * 3   computes (a * 6) ** 2: constants merged across the squaring `x *= x` *)
 Definition w_mself := mkW X PEmpty (EBin BMul (EBin BPow (EPar (EBin BMul A (EConst 2))) (EConst 2)) (EConst 3)) [(sa, 1)].
-Lemma refuted_mself : lits_ok (w_e w_mself) = true /\ violates w_mself T_opt_merge_self.
-Proof. split; [reflexivity|]. wrong. Qed.
+Definition w_nowrap := mkW X PEmpty (EBin BDiv (EBin BMul (EConst 1000000) (EConst 46341)) (EConst 46341)) [].
+Definition w_float := mkW X PEmpty (EBin BMul (EBin BDiv (EConst 7) (EConst 2)) (EConst 2)) [].
+Definition w_huge := mkW X PEmpty (EBin BPow (EConst 2) (EBin BPow (EConst 7) (EConst 7))) [].
+
+Definition repaired_witnesses : list witness :=
+  [w_parse; w_neg; w_iop_minus; w_iop; w_reuse; w_subfold; w_pow; w_minus; w_div; w_mod; w_mid;
+   w_range; w_crash; w_swap; w_mself; w_nowrap; w_float; w_huge].
+
+Lemma repaired_hold : forallb holds_b repaired_witnesses = true.
+Proof. vm_compute. reflexivity. Qed.
